@@ -1,5 +1,6 @@
 CONSTANTS
   MaxFeatures = 2
+  PairPaths <- Paths
   Plan <- PlanAny
   Dev_StopDropsDynamic = TRUE
   Dev_ExcRebuiltFromStr = TRUE
